@@ -604,7 +604,7 @@ func genDoc(c *Chooser, g GenCfg) *Val {
 		// never a string: rendering a string-to-string replacement runs an
 		// O(n*m) character LCS, a performance cliff the simulator is not about
 		pad := &Val{K: 'a'}
-		for i := 0; i < 6200; i++ {
+		for i := 0; i < 8000; i++ {
 			pad.Elems = append(pad.Elems, vs("huge-"+strconv.Itoa(i%91)))
 		}
 		v.set("huge", pad)
